@@ -42,7 +42,7 @@ META = {
 # drop / cryptv / mdstr: found by an independent audit (2026-10-03), present in /repo today, listed in known_findings/C05.json;
 # proposed_fixes/C05-password-not-encodable.diff, C05-crypt-filter-below-v4.diff, C05-metadata-stream-dictionary-strings.diff.
 DEV = {"h12": False, "h13": False, "t127": False, "mdict": False, "dparr": False, "osrep": False,
-       "drop": True, "cryptv": True, "mdstr": True}
+       "drop": False, "cryptv": False, "mdstr": False}     # repaired by 9c92c82, 175e800, f232be7
 DEV_TAG = {"h12": "owner.R234.key", "h13": "streamdict.string", "t127": "pw.gt127.R56", "mdict": "metadata.nonstream", "dparr": "crypt.dparray",
            "osrep": "restored.objstm.member", "drop": "pw.unencodable.R234", "cryptv": "crypt.belowV4", "mdstr": "metadata.streamdict"}
 NEED_TAGS = ("ok-restored", "ok-rejected", "ok-loaded-enc", "ok-loaded-autodecrypted", "ok-auth", "ok-auth-rejected", "ok", "ok-edit")
